@@ -113,7 +113,7 @@ def check_state(job):
                     continue
                 ex = W @ g.ravel()
                 sc = max(1.0, float((np.abs(W) @ np.abs(g.ravel())).max()))   # error scale of the sum, not of the (possibly cancelling) result
-                if y.shape != (2,) or not np.allclose(y, ex, atol=tol * sc, rtol=0):
+                if y.shape != (2,) or not core.allclose(y, ex, atol=tol * sc, rtol=0):
                     out.append((["C07"], "interpolate_value", "interpolate differs from the documented kernel sum: got %s, expected %s" % (np.asarray(y).ravel()[:2], ex[:2])))
                 if not (np.array_equal(g, g0) and np.array_equal(coord, c0)):
                     out.append((["C02", "C07"], "input_mutated", "interpolate modified an argument"))
@@ -126,7 +126,7 @@ def check_state(job):
                         except Exception as e:
                             out.append((["C07"], "exception", "interpolate raised %r for %s arguments" % (e, lab)))
                             continue
-                        if yv.shape != (2,) or not np.allclose(yv, ex, atol=tol * sc, rtol=0):
+                        if yv.shape != (2,) or not core.allclose(yv, ex, atol=tol * sc, rtol=0):
                             out.append((["C07"], "interpolate_value", "interpolate with %s arguments differs from the documented kernel sum" % lab))
                         if not (np.array_equal(gv, gv0) and np.array_equal(cv, cv0)):
                             out.append((["C02", "C07"], "input_mutated", "interpolate modified a %s argument" % lab))
@@ -137,7 +137,7 @@ def check_state(job):
                     out.append((["C07"], "exception", "gridding raised %r" % (e,)))
                     continue
                 exg = (W.T @ v).reshape(grid)
-                if tuple(gg.shape) != tuple(grid) or not np.allclose(gg, exg, atol=tol * max(1.0, float((np.abs(W.T) @ np.abs(v)).max())), rtol=0):
+                if tuple(gg.shape) != tuple(grid) or not core.allclose(gg, exg, atol=tol * max(1.0, float((np.abs(W.T) @ np.abs(v)).max())), rtol=0):
                     out.append((["C07"], "gridding_value", "gridding is not the transpose of the documented interpolation weights (coincident / wrapped contributions must add)"))
         # a different parameter on every axis (spline orders / Kaiser-Bessel betas), interpolate and gridding
         if nd >= 2 and par == params[0]:
@@ -153,9 +153,9 @@ def check_state(job):
                 except Exception as e:
                     out.append((["C07"], "exception", "per-axis param %s raised %r" % (pm, e)))
                     continue
-                if not np.allclose(ym, Wm @ gm.ravel(), atol=tol * max(1.0, float((np.abs(Wm) @ np.abs(gm.ravel())).max())), rtol=0):
+                if not core.allclose(ym, Wm @ gm.ravel(), atol=tol * max(1.0, float((np.abs(Wm) @ np.abs(gm.ravel())).max())), rtol=0):
                     out.append((["C07"], "interpolate_value", "interpolate with per-axis param %s differs from the documented separable kernel sum" % (pm,)))
-                if not np.allclose(ggm.ravel(), Wm.T @ vm, atol=tol * max(1.0, float((np.abs(Wm.T) @ np.abs(vm)).max())), rtol=0):
+                if not core.allclose(ggm.ravel(), Wm.T @ vm, atol=tol * max(1.0, float((np.abs(Wm.T) @ np.abs(vm)).max())), rtol=0):
                     out.append((["C07"], "gridding_value", "gridding with per-axis param %s is not the transpose of the documented interpolation weights" % (pm,)))
         # scalar width / param given as NumPy scalars (np.int64, np.float32, ...) when the configuration has one width for all axes
         if len(set(widths)) == 1 and float(widths[0]).is_integer() and par == params[0]:
@@ -163,7 +163,7 @@ def check_state(job):
             for wn, pn in ((np.int64(int(widths[0])), par), (np.float32(widths[0]), np.float64(par) if kern != "spline" else np.int32(par))):
                 try:
                     yn = sp.interpolate(gn, coord, kernel=kern, width=wn, param=pn)
-                    okn = yn.shape == (2,) and np.allclose(yn, W @ gn.ravel(), atol=tol * max(1.0, float((np.abs(W) @ np.abs(gn.ravel())).max())), rtol=0)
+                    okn = yn.shape == (2,) and core.allclose(yn, W @ gn.ravel(), atol=tol * max(1.0, float((np.abs(W) @ np.abs(gn.ravel())).max())), rtol=0)
                 except Exception as e:
                     okn = False
                     yn = repr(e)[:120]
@@ -178,12 +178,12 @@ def check_state(job):
                 try:
                     yb0 = sp.interpolate(gbare, cb, kernel=kern, width=tuple(widths), param=tuple([par] * nd))
                     exb0 = gbare.reshape(bshape + (-1,)) @ W1[0]
-                    if np.shape(yb0) != bshape or not np.allclose(yb0, exb0, atol=tol * max(1.0, float(np.abs(gbare).max() * np.abs(W1).sum())), rtol=0):
+                    if np.shape(yb0) != bshape or not core.allclose(yb0, exb0, atol=tol * max(1.0, float(np.abs(gbare).max() * np.abs(W1).sum())), rtol=0):
                         out.append((["C07"], "interpolate_value", "interpolate with a bare (ndim,) coordinate and batch shape %s differs from the kernel sum" % (bshape,)))
                     vb = np.asarray(rs.randn(*bshape) + 1j * rs.randn(*bshape))
                     gg0 = sp.gridding(vb, cb, list(bshape) + list(grid), kernel=kern, width=tuple(widths), param=tuple([par] * nd))
                     exg0 = (vb.reshape(bshape + (1,)) * W1[0]).reshape(bshape + tuple(grid))
-                    if np.shape(gg0) != bshape + tuple(grid) or not np.allclose(gg0, exg0, atol=tol * max(1.0, float(np.abs(vb).max() * np.abs(W1).max())), rtol=0):
+                    if np.shape(gg0) != bshape + tuple(grid) or not core.allclose(gg0, exg0, atol=tol * max(1.0, float(np.abs(vb).max() * np.abs(W1).max())), rtol=0):
                         out.append((["C07"], "gridding_value", "gridding with a bare (ndim,) coordinate and batch shape %s is not the transpose of the kernel sum" % (bshape,)))
                 except Exception as e:
                     out.append((["C07"], "exception", "a bare (ndim,) coordinate with batch shape %s raised %r" % (bshape, e)))
@@ -191,7 +191,7 @@ def check_state(job):
         gb = rs.randn(2, *grid) + 1j * rs.randn(2, *grid)
         yb = sp.interpolate(gb, coord, kernel=kern, width=tuple(widths), param=tuple([par] * nd))
         exb = gb.reshape(2, -1) @ W.T
-        if yb.shape != (2, 2) or not np.allclose(yb, exb, atol=tol * max(1.0, float((np.abs(gb.reshape(2, -1)) @ np.abs(W.T)).max())), rtol=0):
+        if yb.shape != (2, 2) or not core.allclose(yb, exb, atol=tol * max(1.0, float((np.abs(gb.reshape(2, -1)) @ np.abs(W.T)).max())), rtol=0):
             out.append((["C07"], "batch_value", "interpolate with a batch axis differs from the per-batch kernel sum"))
         # the operators (C01 / C04)
         A = sp.linop.Interpolate(grid, coord, kernel=kern, width=tuple(widths), param=tuple([par] * nd))
@@ -200,26 +200,26 @@ def check_state(job):
         if F is None or G is None:
             out.append((["C03"], "linop_shape", "Interpolate/Gridding linop output shape not advertised"))
         else:
-            if not np.allclose(F, W, atol=tol * max(1.0, np.abs(W).max()), rtol=0):
+            if not core.allclose(F, W, atol=tol * max(1.0, np.abs(W).max()), rtol=0):
                 out.append((["C07"], "linop_forward", "Interpolate linop differs from the documented kernel sum"))
-            if not np.allclose(G, F.conj().T, atol=1e-12 * max(1.0, np.abs(F).max()), rtol=0):
+            if not core.allclose(G, F.conj().T, atol=1e-12 * max(1.0, np.abs(F).max()), rtol=0):
                 out.append((["C01"], "adjoint_matrix", "<Ax,y> != <x,A^H y> for Interpolate(width=%s): max |diff| %.3g" % (widths, np.abs(G - F.conj().T).max())))
             if list(A.H.ishape) != list(A.oshape) or list(A.H.oshape) != list(A.ishape):
                 out.append((["C01"], "adjoint_shape", "Interpolate.H shapes not swapped"))
             Nn, _ = linop_build.dense(A.N, check_i=False)
-            if Nn is None or not np.allclose(Nn, F.conj().T @ F, atol=1e-11 * max(1.0, np.abs(F).max() ** 2), rtol=0):
+            if Nn is None or not core.allclose(Nn, F.conj().T @ F, atol=1e-11 * max(1.0, np.abs(F).max() ** 2), rtol=0):
                 out.append((["C04"], "normal_matrix", "Interpolate.N differs from A^H A"))
             HH, _ = linop_build.dense(A.H.H, check_i=False)
-            if HH is None or not np.allclose(HH, F, atol=1e-12 * max(1.0, np.abs(F).max())):
+            if HH is None or not core.allclose(HH, F, atol=1e-12 * max(1.0, np.abs(F).max())):
                 out.append((["C01"], "adjoint_involution", "Interpolate.H.H does not act like the original"))
             # the adjoint-type class built directly with the same (non-default) kernel / width / param, and its own adjoint
             try:
                 B = sp.linop.Gridding(grid, coord, kernel=kern, width=tuple(widths), param=tuple([par] * nd))
                 Bm, _ = linop_build.dense(B, check_i=False)
                 BH, _ = linop_build.dense(B.H, check_i=False)
-                if Bm is None or not np.allclose(Bm, F.conj().T, atol=1e-12 * max(1.0, np.abs(F).max()), rtol=0):
+                if Bm is None or not core.allclose(Bm, F.conj().T, atol=1e-12 * max(1.0, np.abs(F).max()), rtol=0):
                     out.append((["C01"], "adjoint_matrix", "Gridding(...) built directly is not the conjugate transpose of Interpolate(...) with the same arguments"))
-                if BH is None or not np.allclose(BH, F, atol=1e-12 * max(1.0, np.abs(F).max()), rtol=0):
+                if BH is None or not core.allclose(BH, F, atol=1e-12 * max(1.0, np.abs(F).max()), rtol=0):
                     out.append((["C01"], "adjoint_matrix", "Gridding(...).H does not act like Interpolate(...) with the same arguments"))
             except Exception as e:
                 out.append((["C01"], "exception", "Gridding linop raised %r" % (e,)))
@@ -245,7 +245,7 @@ def run(ctx):
         grids = "{<<n>> : n \\in 1..5} \\cup {<<a, b>> : a \\in 1..3, b \\in 2..3} \\cup {<<2, 3, 2>>}"
         c1 = "{R(k, 4) : k \\in {-26, -9, -6, -4, -2, -1, 0, 1, 2, 3, 5, 6, 8, 10, 18}}"
         c2 = "{R(k, 4) : k \\in {-9, -2, 0, 1, 6}}"
-        axw = "{<<R(4, 1), R(2, 1)>>, <<R(3, 2), R(3, 1)>>, <<R(1, 1), R(5, 2)>>, <<R(2, 1), R(4, 1)>>, <<R(2, 1), R(3, 1), R(4, 1)>>}"
+        axw = "{<<R(4, 1), R(2, 1)>>, <<R(3, 2), R(3, 1)>>, <<R(1, 1), R(5, 2)>>, <<R(2, 1), R(4, 1)>>, <<R(2, 1), R(3, 1), R(4, 1)>>, <<R(4, 1), R(3, 1), R(2, 1)>>}"
     body = "EXTENDS Interp\nMCGrids == %s\nMCCoords == %s\nMCCoords2 == %s\nMCWidths == {R(1, 1), R(3, 2), R(2, 1), R(5, 2), R(3, 1), R(4, 1)}\nMCAxisW == %s\n" % (grids, c1, c2, axw)
     cfg = ('INIT Init\nNEXT Next\nCONSTANTS\n Grids <- MCGrids\n CoordVals <- MCCoords\n Coords2 <- MCCoords2\n Widths <- MCWidths\n AxisWidths <- MCAxisW\n Kernels = {"spline0", "spline1", "spline2", "kb"}\n'
            + "".join("INVARIANT %s\n" % i for i in INVS))
